@@ -82,6 +82,14 @@ class RequireWalker(lua.BaseASTWalker):
         """
         if (isinstance(node.exp_prefix, parser.VarName) and
                 node.exp_prefix.name == lexer.TokName(b'require')):
+            if isinstance(node.args, lexer.TokString):
+                # require "lib" / require [[lib]]: a call with one string
+                # literal argument.
+                yield (node.args.value, False, self._tokens[node.start_pos])
+                return
+            if not isinstance(node.args, parser.FunctionArgs):
+                self._error_at_node('require() first argument must be a '
+                                    'string literal', node)
             arg_exps = node.args.explist.exps if node.args.explist else []
             if len(arg_exps) < 1 or len(arg_exps) > 2:
                 self._error_at_node('require() has {} args, should have 1 or 2'
